@@ -129,6 +129,10 @@ def motion_notify_rule(ctx, cg=None):
 
 def run(ctx):
     ctx.attempt(history_state_reset_rule, ctx)
+    ctx.attempt(per_problem_memo_rule, ctx)
+    from ..shared import notify_last_rule as _notify_last_rule
+
+    ctx.attempt(_notify_last_rule, ctx, "R14.20")
     from ..shared import snapshot_rule as _snapshot_rule
 
     ctx.attempt(_snapshot_rule, ctx, "R14.18", scope=lambda ci: ci.module.name.startswith(("EasyFEA.Models", "EasyFEA.Simulations")))
@@ -562,3 +566,78 @@ def history_state_reset_rule(ctx, rid="R14.19"):
                 r.ok(f"{ci.name}.__{short}: written on mesh replacement")
             else:
                 r.fail(f"{ci.qualname}.{attr}", "survives-mesh-replacement", f.file, f.lineno, f"{ci.name}.{f.name}", f"{ci.name}.__{short} (history committed by {f.name}) is not re-initialised when the mesh is replaced: `simu.mesh = other` resets the solutions and the boundary conditions but the next Solve starts from the history of the previous mesh (a new simulation on that mesh starts from none)")
+
+
+def per_problem_memo_rule(ctx, rid="R14.21"):
+    """A simulation that overrides Get_K_C_M_F to memoise one assembled system per problem type: starting from the
+    all-stale state its own Need_Update() produces, a request for problem X followed by a request for problem Y
+    re-assembles Y (serving X must not mark Y fresh), for every ordered pair; a second request for Y is then served
+    from the memo.  Get_K_C_M_F and Need_Update are interpreted on a stub that records the Assembly calls."""
+    from types import SimpleNamespace
+
+    from ..xeval import Interp, XObj, Opaque, XRaise, Uninterpretable
+
+    repo = ctx.repo
+    simu = repo.cls(SIMU)
+    r = ctx.rule(rid, "per-problem memo of Get_K_C_M_F: from the all-stale state, serving problem X leaves every other problem stale (the next request for Y assembles Y)", min_instances=2)
+
+    class Mat:
+        _xeval_open = True
+        shape = (4, 4)
+
+        def __init__(self, tag):
+            self.tag = tag
+
+        def copy(self):
+            return self
+
+    for ci in repo.subclasses(simu):
+        g = ci.methods.get("Get_K_C_M_F")
+        nu = repo.lookup_method(ci, "Need_Update")
+        pt = ci.nested.get("ProblemTypes") if hasattr(ci, "nested") else None
+        if g is None or g.cls is not ci or pt is None or nu is None:
+            continue
+        names = [t.id for st in pt.node.body if isinstance(st, ast.Assign) for t in st.targets if isinstance(t, ast.Name)]
+        if len(names) < 2:
+            continue
+        for x in names:
+            for y in names:
+                if x == y:
+                    continue
+                r.instance(fn=g.qualname)
+                calls = []
+
+                def assembly(p=None, calls=calls):
+                    calls.append(p)
+                    return (Mat(f"K[{p}]"), Mat("C"), Mat("M"), Mat(f"F[{p}]"))
+
+                obj = XObj(ci, {"ProblemTypes": SimpleNamespace(**{n: n for n in names}), "Assembly": assembly})
+                I = Interp(repo)
+                I.call_hook = lambda fn, args, kwargs: Mat("zero") if isinstance(fn, Opaque) and fn.tag.endswith("csr_matrix") else NotImplemented
+                try:
+                    I.call_function(nu, [], self_obj=obj)
+                    for p0 in names:  # a first round fills every memo
+                        I.call_function(g, [p0], self_obj=obj)
+                    I.call_function(nu, [], self_obj=obj)  # a change: everything stale
+                    del calls[:]
+                    I.call_function(g, [x], self_obj=obj)
+                    n1 = len(calls)
+                    I.call_function(g, [y], self_obj=obj)
+                    second = calls[n1:]
+                    I.call_function(g, [y], self_obj=obj)
+                    third = calls[n1 + len(second):]
+                except XRaise as e:
+                    r.fail(g.qualname, f"{x}->{y}", g.file, g.lineno, f"{ci.name}.Get_K_C_M_F", f"request {x} then {y}: raises {e}")
+                    continue
+                except Uninterpretable as e:
+                    if "is not modelled" in str(e) and "attribute" in str(e):
+                        # a memo slot is read before anything was stored in it: a problem was marked fresh without being assembled
+                        r.fail(g.qualname, f"{x}->{y}", g.file, g.lineno, f"{ci.name}.Get_K_C_M_F", f"request {x} then {y} on a simulation whose memos are all stale: a memo slot that was never assembled is read ({str(e).split(': ', 1)[-1]}): serving one problem marked another one up to date")
+                        continue
+                    raise
+                if y not in second:
+                    r.fail(g.qualname, f"{x}->{y}", g.file, g.lineno, f"{ci.name}.Get_K_C_M_F", f"after Need_Update(), Get_K_C_M_F({x}) followed by Get_K_C_M_F({y}) does not assemble the {y} system: serving {x} marked {y} up to date, the {y} matrices of an earlier state are returned")
+                elif third:
+                    r.fail(g.qualname, f"{x}->{y}:memo", g.file, g.lineno, f"{ci.name}.Get_K_C_M_F", f"a repeated request for {y} assembles again ({third}): the memo flag is never raised")
+                else:
+                    r.ok(f"{ci.name}: {x} then {y}: {y} assembled once")
